@@ -2,7 +2,7 @@
 (* X05 (extension): every User-Agent of a small vocabulary x label names x matched or not x two rule orders; the machine *)
 (* of Diagnosis.tla is explored to its end for each, the laws are invariants, and one REPLAY line per finished behaviour  *)
 (* carries the case with the diagnosis under the code's reading (DCode) and under p0f's reading ({}).                      *)
-EXTENDS Diagnosis, Json, TLC
+EXTENDS Diagnosis, Json, TLC, IOUtils
 DCode == {"X05_name_as_needle"}
 R(k, kl, v) == [k |-> k, kl |-> kl, v |-> v]
 RuleSets == <<
@@ -13,10 +13,14 @@ RuleSets == <<
 UAs == {"Mozilla/5.0 (X11; Linux x86_64)", "Mozilla/5.0 (Windows NT 10.0) Linux-compat", "Linux; Windows", "mozilla (linux; windows)", "LINUX",
         "Mozilla/5.0 (iPad; CPU OS 15)", "iOS-App/1.0", "iPhone iPad iOS", "Mozilla/5.0 (Macintosh; Intel Mac OS X 10_15)", "Mac OS", "XMac OS XX", "Mac OSX",
         "curl/8.0", "SunOS 5.11", "Solaris", "x", "X", "Linu", "inux", "Windows"}
+\* thorough tier: every ordered pair of tokens (needles, their patterns, case variants, near misses, fillers) as a User-Agent
+Tokens == {"Linux", "linux", "Windows", "iOS", "iPad", "iPhone", "Mac OS X", "Mac OS", "SunOS", "Solaris", "X", "curl", "(", ""}
+Thorough == "VERIF_TIER" \in DOMAIN IOEnv /\ IOEnv.VERIF_TIER = "thorough"
+UAsT == IF Thorough THEN UAs \cup {a \o ";" \o b : a \in Tokens \ {""}, b \in Tokens} \cup {a \o b : a \in Tokens \ {""}, b \in Tokens \ {""}} ELSE UAs
 Labels == {"linux", "windows", "ios", "mac os x", "chrome", "x"}
-Requests(rs) == {[hasUa |-> TRUE, ua |-> u, matched |-> m, label |-> IF m THEN l ELSE "", rs |-> rs, db |-> TRUE] : u \in UAs, m \in BOOLEAN, l \in Labels}
+Requests(rs) == {[hasUa |-> TRUE, ua |-> u, matched |-> m, label |-> IF m THEN l ELSE "", rs |-> rs, db |-> TRUE] : u \in UAsT, m \in BOOLEAN, l \in Labels}
                   \cup {[hasUa |-> FALSE, ua |-> "", matched |-> m, label |-> IF m THEN l ELSE "", rs |-> rs, db |-> TRUE] : m \in BOOLEAN, l \in Labels}
-                  \cup {[hasUa |-> u # "", ua |-> u, matched |-> FALSE, label |-> "", rs |-> rs, db |-> FALSE] : u \in UAs \cup {""}}
+                  \cup {[hasUa |-> u # "", ua |-> u, matched |-> FALSE, label |-> "", rs |-> rs, db |-> FALSE] : u \in UAsT \cup {""}}
 All == UNION {Requests(rs) : rs \in 1..Len(RuleSets)}
 Init == DInit(All)
 Next == DNext(RuleSets[req.rs], DCode)
